@@ -76,6 +76,10 @@ def oracle(ctx, label, data, o, names):
         seen = set()
         for ev, org in o.missing:
             key, what = classify(o, ev, org)
+            if de.scheme_name_collision(o):
+                key, what = "global-name-captures-decompiler-variable", (
+                    "a global whose attribute name is _varN / result / UNPICKLER is captured by the "
+                    "decompiler's own variable of that name")
             if key in seen:
                 continue
             seen.add(key)
